@@ -349,6 +349,8 @@ def required_cells(oc, plan):
                 continue
             if not any(k.startswith(f"{name}|{op}|") for k in keys):
                 missing.append(f"{name}|{op}")
+        if kind == "A" and len(MODELS[m][2]) > 1 and not any(k.startswith(f"{name}|assign|") and "~xdof" in k for k in keys):
+            missing.append(f"{name}|assign: no copy assignment over an object of another dof")
     # exhaustive sweeps, from the shapes the SPEC derived out of the recorded values
     def shapes_seen(name, op):
         return {k.split("|")[2].split("~")[0] for k in keys if k.startswith(f"{name}|{op}|")}
